@@ -11,6 +11,7 @@ import (
 	_ "verif/props/enet"
 	_ "verif/props/eobj"
 	_ "verif/props/eserial"
+	_ "verif/props/etrace"
 	_ "verif/props/evm"
 )
 
